@@ -18,7 +18,8 @@
 (* recorded from the real ConditionalSMCSampler against this machine.      *)
 (***************************************************************************)
 EXTENDS Forests
-CONSTANTS N, NP, OutlierOn, Starts    \* Starts: set of start forests (all of AllOn(Data) when model checking)
+CONSTANTS N, NP, OutlierOn, Starts,   \* Starts: set of start forests (all of AllOn(Data) when model checking)
+          Conditional                \* TRUE: conditional SMC of particle Gibbs (retained path in slot 1); FALSE: the unconditional SMC of burn-in
 Data == 0..(N - 1)
 VARIABLES s0, sig, t, xs, phase, out
 vars == <<s0, sig, t, xs, phase, out>>
@@ -27,28 +28,32 @@ Star(k) == RestrictTo(s0, {sig[i] : i \in 1..k})
 NoSwarm == [k \in Slots |-> Empty]
 Init == s0 \in Starts /\ sig = <<>> /\ t = 0 /\ xs = NoSwarm /\ phase = "sigma" /\ out = Empty
 DrawSigma == /\ phase = "sigma" /\ sig' \in Orders(s0) /\ phase' = "init" /\ UNCHANGED <<s0, t, xs, out>>
+Free == IF Conditional THEN 2..NP ELSE Slots
 InitSwarm == /\ phase = "init"
-             /\ \E ch \in [2..NP -> Place(Empty, sig[1], OutlierOn)] :
-                  xs' = [k \in Slots |-> IF k = 1 THEN RestrictTo(s0, {sig[1]}) ELSE ch[k]]
-             /\ t' = 1 /\ phase' = "resample" /\ UNCHANGED <<s0, sig, out>>
+             /\ IF Conditional
+                THEN /\ \E ch \in [2..NP -> Place(Empty, sig[1], OutlierOn)] :
+                          xs' = [k \in Slots |-> IF k = 1 THEN RestrictTo(s0, {sig[1]}) ELSE ch[k]]
+                     /\ t' = 1
+                ELSE /\ xs' = NoSwarm /\ t' = 0          \* SMCSampler starts from NP empty particles
+             /\ phase' = "resample" /\ UNCHANGED <<s0, sig, out>>
 \* resampling may or may not happen (ESS rule); when it does the retained particle is forced into slot 1
 Resample == /\ phase = "resample"
             /\ \/ UNCHANGED xs
-               \/ \E a \in [2..NP -> Slots] : xs' = [k \in Slots |-> IF k = 1 THEN Star(t) ELSE xs[a[k]]]
+               \/ \E a \in [Free -> Slots] : xs' = [k \in Slots |-> IF k \in Free THEN xs[a[k]] ELSE Star(t)]
             /\ phase' = (IF t < N THEN "update" ELSE "select")
             /\ UNCHANGED <<s0, sig, t, out>>
 Update == /\ phase = "update"
           /\ LET d == sig[t + 1] IN
-               \E ch \in [2..NP -> UNION {Place(xs[k], d, OutlierOn) : k \in 2..NP}] :
-                  /\ \A k \in 2..NP : ch[k] \in Place(xs[k], d, OutlierOn)
-                  /\ xs' = [k \in Slots |-> IF k = 1 THEN Star(t + 1) ELSE ch[k]]
+               \E ch \in [Free -> UNION {Place(xs[k], d, OutlierOn) : k \in Free}] :
+                  /\ \A k \in Free : ch[k] \in Place(xs[k], d, OutlierOn)
+                  /\ xs' = [k \in Slots |-> IF k \in Free THEN ch[k] ELSE Star(t + 1)]
           /\ t' = t + 1
           /\ phase' = (IF t + 1 < N THEN "resample" ELSE "select")    \* no resampling after the last update
           /\ UNCHANGED <<s0, sig, out>>
 Select == /\ phase = "select" /\ \E k \in Slots : out' = xs[k] /\ phase' = "done" /\ UNCHANGED <<s0, sig, t, xs>>
 Next == DrawSigma \/ InitSwarm \/ Resample \/ Update \/ Select \/ (phase = "done" /\ UNCHANGED vars)
 Prefix == {sig[i] : i \in 1..t}
-RetainedInSlot1 == phase \in {"resample", "update", "select"} => xs[1] = Star(t)
+RetainedInSlot1 == (Conditional /\ phase \in {"resample", "update", "select"}) => xs[1] = Star(t)
 LineagesHoldPrefix == phase \in {"resample", "update", "select"} => \A k \in Slots : DataOf(xs[k]) = Prefix /\ IsForest(xs[k])
 LineagesCompatible == phase \in {"resample", "update", "select"} =>
      \A k \in Slots : Compat([i \in 1..t |-> sig[i]], xs[k])
